@@ -11,6 +11,7 @@
 (* q1..pn = the policy's structure as in Policies9, xk = cached or tracked   *)
 (* keys outside 1..K).                                                       *)
 (*                                                                           *)
+(* One TLC step folds Chunk recorded segments of the current trace.           *)
 (* For every step the spec (1) runs the Cache.tla segment on the model state *)
 (* and compares the prediction with the observation (mismatch = MODEL:...,   *)
 (* drift, not an alarm), then continues from the OBSERVED state, and (2)     *)
@@ -31,19 +32,16 @@ CONSTANTS Dev
 Traces == JsonDeserialize(IOEnv.TRACE_FILE)
 NT == Len(Traces)
 
-VARIABLES ti, l, s, opsf, h, st0, prop, drift
-tvars == <<ti, l, s, opsf, h, st0, prop, drift>>
+VARIABLES ti, l, acc
+tvars == <<ti, l, acc>>
 
-Tr == Traces[ti]
 GT(T) == [K |-> T.K, cap |-> T.cap, wt |-> T.wt, pol |-> T.pol, par |-> T.par, dev |-> Dev]
 
 NoProp == <<"", 0, {}>>
 NoDrift == <<"", 0>>
-Start(i) ==
-    IF i > NT THEN /\ s = InitS([K |-> 1], <<0>>) /\ h = <<>>
-    ELSE /\ s = InitS(GT(Traces[i]), Traces[i].pre) /\ h = InitHist(GT(Traces[i]), Traces[i].pre)
-
-TInit == ti = 1 /\ l = 1 /\ opsf = <<>> /\ st0 = <<>> /\ prop = NoProp /\ drift = NoDrift /\ Start(1)
+\* accumulator of the fold over the steps of one trace
+Acc0(T) == [s |-> InitS(GT(T), T.pre), h |-> InitHist(GT(T), T.pre), opsf |-> <<>>, st0 |-> <<>>,
+            prop |-> NoProp, drift |-> NoDrift]
 
 Flags(f) == { k \in 1..Len(f) : f[k] = 1 }
 ObsPS(r) == [q1 |-> r.q1, q2 |-> r.q2, q3 |-> r.q3, n |-> r.pn]
@@ -68,21 +66,22 @@ HEnd(hh, kind, k, spos, pos) ==
                                                   THEN [@[i] EXCEPT !.e = pos, !.done = TRUE] ELSE @[i]]]
     ELSE hh
 
-Step ==
-    LET T == Tr
-        g == GT(T)
-        r == T.steps[l]
-        known == r.seg > 1 /\ r.o \in DOMAIN opsf
-        op0 == IF known THEN opsf[r.o] ELSE NewOp(r.kind, r.k, r.v, r.ford)
+StepF(T, ll, a) ==
+    LET g == GT(T)
+        r == T.steps[ll]
+        s == a.s
+        known == r.seg > 1 /\ r.o \in DOMAIN a.opsf
+        op0 == IF known THEN a.opsf[r.o] ELSE NewOp(r.kind, r.k, r.v, r.ford)
         outs == Seg(g, s, op0, r.t)
         good == { o \in outs : Diff(o, r) = "" }
         o == IF good # {} THEN CHOOSE x \in good : TRUE ELSE CHOOSE x \in outs : TRUE
-        spos == IF r.seg = 1 \/ r.o \notin DOMAIN st0 THEN l ELSE st0[r.o]
-        h1 == IF r.seg = 1 THEN HStart(h, r.kind, r.k, r.v, l) ELSE h
-        h2 == IF r.last THEN HEnd(h1, r.kind, r.k, spos, l) ELSE h1
+        spos == IF r.seg = 1 \/ r.o \notin DOMAIN a.st0 THEN ll ELSE a.st0[r.o]
+        h1 == IF r.seg = 1 THEN HStart(a.h, r.kind, r.k, r.v, ll) ELSE a.h
+        h2 == IF r.last THEN HEnd(h1, r.kind, r.k, spos, ll) ELSE h1
         cached == { k \in 1..T.K : r.cache[k] # 0 }
         ns == [o.s EXCEPT !.cache = r.cache, !.dirty = Flags(r.dirty), !.back = r.back, !.ps = ObsPS(r)]
-        bad == IF r.n > T.cap \/ Cardinality(cached) + r.xk > T.cap THEN <<"PROP:capacity", {}>>
+        bad == IF a.prop[1] # "" THEN <<"", {}>>
+               ELSE IF r.n > T.cap \/ Cardinality(cached) + r.xk > T.cap THEN <<"PROP:capacity", {}>>
                ELSE IF Flags(r.trk) # cached \/ r.xk > 0 THEN <<"PROP:policy_keys", {}>>
                ELSE IF r.kind = "get" /\ r.last /\ ~ReadOK(h2, r.k, spos, r.ret)
                     THEN <<"PROP:stale_read", o.s.taint[r.k]>>
@@ -90,26 +89,34 @@ Step ==
                     THEN <<"PROP:writeback_lost",
                            UNION { o.s.taint[k] : k \in { k \in 1..T.K : r.back[k] \notin Allowed(h2[k], Infinity) } }>>
                ELSE <<"", {}>>
-    IN /\ s' = ns
-       /\ h' = h2
-       /\ st0' = IF r.seg = 1 THEN (r.o :> l) @@ st0 ELSE st0
-       /\ opsf' = IF r.last THEN [x \in DOMAIN opsf \ {r.o} |-> opsf[x]] ELSE (r.o :> o.op) @@ opsf
-       /\ prop' = IF prop[1] = "" /\ bad[1] # "" THEN <<bad[1], l, bad[2]>> ELSE prop
-       /\ drift' = IF drift[1] = "" /\ good = {} THEN <<Diff(o, r), l>> ELSE drift
-       /\ l' = l + 1 /\ ti' = ti
+    IN [s |-> ns, h |-> h2,
+        st0 |-> IF r.seg = 1 THEN (r.o :> ll) @@ a.st0 ELSE a.st0,
+        opsf |-> IF r.last THEN [x \in DOMAIN a.opsf \ {r.o} |-> a.opsf[x]] ELSE (r.o :> o.op) @@ a.opsf,
+        prop |-> IF bad[1] # "" THEN <<bad[1], ll, bad[2]>> ELSE a.prop,
+        drift |-> IF a.drift[1] = "" /\ good = {} THEN <<Diff(o, r), ll>> ELSE a.drift]
+
+RECURSIVE Fold(_, _, _, _)
+Fold(T, i, hi, a) == IF i > hi THEN a ELSE Fold(T, i + 1, hi, StepF(T, i, a))
 
 DevCode(d) == CASE d = D1 -> 1 [] d = D2 -> 2 [] d = D3 -> 3 [] d = D4 -> 4 [] d = D5 -> 5 [] d = D6 -> 6 [] OTHER -> 9
-Finish ==
-    /\ PrintT(<<"V", Tr.id, IF prop[1] # "" THEN prop[1] ELSE IF drift[1] # "" THEN drift[1] ELSE "ACCEPT",
-               IF prop[1] # "" THEN prop[2] ELSE drift[2], { DevCode(d) : d \in prop[3] }>>)
-    /\ (drift[1] # "" => PrintT(<<"D", Tr.id, drift[1], drift[2]>>))
-    /\ ti' = ti + 1 /\ l' = 1 /\ opsf' = <<>> /\ st0' = <<>> /\ prop' = NoProp /\ drift' = NoDrift
-    /\ IF ti + 1 > NT THEN UNCHANGED <<s, h>>
-       ELSE /\ s' = InitS(GT(Traces[ti + 1]), Traces[ti + 1].pre)
-            /\ h' = InitHist(GT(Traces[ti + 1]), Traces[ti + 1].pre)
 
-TNext == /\ ti <= NT
-         /\ IF l > Len(Tr.steps) THEN Finish ELSE Step
+Chunk == 8      \* recorded segments folded per TLC step (bounds the evaluation depth)
+Dummy == [K |-> 1, cap |-> 1, wt |-> TRUE, pol |-> "LRU", par |-> [ttl |-> 1, ss |-> 1, a1max |-> 1], pre |-> <<0>>]
+TInit == ti = 1 /\ l = 1 /\ acc = Acc0(IF NT = 0 THEN Dummy ELSE Traces[1])
+TNext ==
+    /\ ti <= NT
+    /\ LET T == Traces[ti]
+           n == Len(T.steps)
+       IN IF l > n
+          THEN /\ PrintT(<<"V", T.id, IF acc.prop[1] # "" THEN acc.prop[1]
+                                      ELSE IF acc.drift[1] # "" THEN acc.drift[1] ELSE "ACCEPT",
+                           IF acc.prop[1] # "" THEN acc.prop[2] ELSE acc.drift[2],
+                           { DevCode(d) : d \in acc.prop[3] }>>)
+               /\ (acc.drift[1] # "" => PrintT(<<"D", T.id, acc.drift[1], acc.drift[2]>>))
+               /\ ti' = ti + 1 /\ l' = 1
+               /\ acc' = Acc0(IF ti + 1 > NT THEN Dummy ELSE Traces[ti + 1])
+          ELSE LET hi == IF l + Chunk - 1 > n THEN n ELSE l + Chunk - 1
+               IN acc' = Fold(T, l, hi, acc) /\ l' = hi + 1 /\ ti' = ti
 
 Spec == TInit /\ [][TNext]_tvars
 =============================================================================
